@@ -295,6 +295,10 @@ impl PoolScn {
             cfg,
             Box::new(move || {
                 let pool = divan::verif::Pool::new();
+                // One result buffer reused across broadcasts (cleared in
+                // between), the way the sampling loop reuses `raw_samples`:
+                // a slot that `par_extend` fails to reset shows a stale value.
+                let mut reused: Vec<Option<u64>> = Vec::new();
                 for (j, b) in scn.broadcasts.iter().enumerate() {
                     let n = b.n;
                     let cells: Vec<AtomicU64> = (0..=n).map(|_| AtomicU64::new(0)).collect();
@@ -328,8 +332,11 @@ impl PoolScn {
                         }
                         Api::ParExtend => {
                             // Pre-existing elements must be left alone.
-                            let mut vec: Vec<Option<u64>> = vec![Some(7), None];
-                            pool.par_extend(&mut vec, n, task);
+                            let vec = &mut reused;
+                            vec.clear();
+                            vec.push(Some(7));
+                            vec.push(None);
+                            pool.par_extend(vec, n, task);
                             probe::event(UserEv::BroadcastReturn { j: j as u32 });
                             if vec.len() < 2 || vec[0] != Some(7) || vec[1].is_some() {
                                 probe::fail(format!(
@@ -337,7 +344,7 @@ impl PoolScn {
                                     &vec[..vec.len().min(2)]
                                 ));
                             }
-                            vec.split_off(2)
+                            vec[2..].to_vec()
                         }
                     };
                     let aux = pool.aux_thread_count();
